@@ -46,6 +46,7 @@ OP_SPACE = {
     'restrict': ['none', 'variety_list', 'booster', 'preamp', 'booster+preamp', 'variety_list+booster'],
     'graph': ['P2', 'P2_inline', 'P2_fused'],
     'amp_voa': [0.0, 2.5],
+    'used_library': [0, 1],                    # the library object designed another line (165 km span) before this one
     'band_spacing': [None, 37.5e9, 100e9],     # design band of the ROADM degrees with another channel spacing than SI
     'order': ['01', '10'],
 }
@@ -175,7 +176,16 @@ def run_one(case):
     topo = topology(case, lib)
     user = {e['uid']: e for e in topo['elements']}
     try:
-        net, equipment, _, _ = c.design(topo, eq)
+        warm = None
+        if case.get('used_library'):
+            warm = topology(dict(case, graph='P2', length=165 if case['length'] != 165 else 70, loss='0.2', amp_voa=0.0), lib)
+        try:
+            net, equipment, _, _ = c.design(topo, eq, warm=warm)
+        except ConfigurationError:
+            if warm is None:
+                raise
+            # the other line itself may be impossible for this library: then the library object stays unused
+            net, equipment, _, _ = c.design(topo, eq)
     except ConfigurationError as exc:
         return {'status': 'rejected', 'tags': {'design-rejected': 1}, 'sample': case}
     span = equipment['Span']['default']
